@@ -462,6 +462,7 @@ def extract_encryption(tree: ast.Module | None, notes: list[str]) -> dict:
 
 SIZE_FUNCS = ("create_backup_archive", "read_backup_archive", "_add_bytes_to_tar")
 SIZE_FLOOR = 1024
+COUNTED = ("deployments", "secrets", "generations")
 
 
 def extract_sizes(tree: ast.Module | None, notes: list[str]) -> dict:
@@ -489,7 +490,10 @@ def extract_sizes(tree: ast.Module | None, notes: list[str]) -> dict:
                 test = ast.BoolOp(op=ast.And(), values=list(n.ifs)) if len(n.ifs) > 1 else n.ifs[0]
             if test is not None:
                 src = ast.unparse(test)
-                if "len(" in src or ".size" in src or "sizeof" in src or "nbytes" in src:
+                # counting the deployments / secrets / generations handed in is not a size test
+                lens = [ast.unparse(c.args[0]) for c in ast.walk(test) if isinstance(c, ast.Call) and isinstance(c.func, ast.Name)
+                        and c.func.id == "len" and len(c.args) == 1]
+                if any(a not in COUNTED for a in lens) or ".size" in src or "sizeof" in src or "nbytes" in src:
                     tests.append(f"{fname}: {src}")
             if isinstance(n, ast.Call) and isinstance(n.func, ast.Attribute) and n.func.attr in ("read", "read1", "readinto") \
                     and (n.args or n.keywords):
